@@ -396,6 +396,27 @@ def guardrails():
             del calls[:]
             t.add_network_service(name="probe-conn", nstype=ST.L2Bridge).connect_interface(interface=ifaces[IT.TrunkPort])
             conn = bool(calls)
+            # ... and on an object that has been used before: the one the constructor returned with an interface given to it,
+            # one that connected an interface earlier, one whose earlier connect was refused (a handle is not a licence)
+            used = []
+            for how in ("ctor", "connect", "refused"):
+                q = hs.add_interface(name="probe-q-%s" % how, itype=IT.DedicatedPort)
+                r = hs.add_interface(name="probe-r-%s" % how, itype=IT.DedicatedPort)
+                if how == "ctor":
+                    s = t.add_network_service(name="probe-used-%s" % how, nstype=ST.L2Bridge, interfaces=[q])
+                else:
+                    s = t.add_network_service(name="probe-used-%s" % how, nstype=ST.L2Bridge)
+                    if how == "connect":
+                        s.connect_interface(interface=q)
+                    else:
+                        try:
+                            s.connect_interface(interface=ifaces[IT.TrunkPort])      # taken by probe-conn
+                        except F["TopologyException"]:
+                            pass
+                del calls[:]
+                s.connect_interface(interface=r)
+                used.append(bool(calls))
+            conn = conn and all(used)
     finally:
         _drop(t)
     # interface-count limits: a PTP service (two interfaces, no more, no less) without any interface
@@ -445,6 +466,39 @@ def value_classes(t):
             out.append((p, vc.__name__, bool(falsy)))
         res[key] = out
     return res
+
+
+def values_lost():
+    """Enum-valued properties the service rows can name: every member is given to a service of a scratch topology through the
+    API and read back from a fresh handle (the way validate_constraints reads it). -> [(property, member)] that do not come back
+    as that member (observed)."""
+    import enum
+    import inspect
+    F = _fim()
+    S = F["NetworkServiceSliver"]
+    lost = []
+    for name, fn in inspect.getmembers(S, inspect.isfunction):
+        if not name.startswith("set_") or not hasattr(S, "get_" + name[4:]):
+            continue
+        params = list(inspect.signature(fn).parameters.values())[1:]
+        if len(params) != 1 or not (inspect.isclass(params[0].annotation) and issubclass(params[0].annotation, enum.Enum)):
+            continue
+        p = name[4:]
+        if p in ("type", "layer", "technology"):
+            continue
+        for m in params[0].annotation:
+            t = F["ft"].ExperimentTopology()
+            try:
+                try:
+                    t.add_network_service(name="probe-svc", nstype=F["ServiceType"].L2Bridge).set_property(p, m)
+                    back = t.network_services["probe-svc"].get_property(p)
+                except Exception:
+                    back = None
+                if back != m:
+                    lost.append((p, m.name))
+            finally:
+                _drop(t)
+    return lost
 
 
 def _row(r):
@@ -540,9 +594,13 @@ def generate():
     body += "\n/-- constrained properties whose value is an object that can be falsy although it is set (strings are not listed: an\nempty string counts as not set) -/\n"
     body += "def svcFalsyCapable : List String := %s\n" % sl([p for p, c, f in vc["svc"] if f and c != "str"])
     body += "def nodeFalsyCapable : List String := %s\n" % sl([p for p, c, f in vc["node"] if f and c != "str"])
+    vl = values_lost()
+    body += ("\n/-- (enum-valued service property, member) that, set through the API, does not read back as that member from a fresh\n"
+             "handle (observed over every member of every enum-valued property of the service sliver) -/\n")
+    body += "def svcValuesLost : List (String × String) := %s\n" % lean_list(["(%s, %s)" % (lean_str(a), lean_str(b)) for a, b in vl])
     changed = emit("Constraints", body)
     return {"svc_rows": len(t["svc"]), "node_rows": len(t["node"]), "link_rows": len(t["link"]),
             "guard_pairs": pairs, "ctor_guardrails": ctor_g, "connect_guardrails": conn_g,
             "nodes_view_excludes": hidden, "node_types_not_validated": skipped, "node_seen": seen, "node_via_handle": via_handle,
-            "node_unprobed": unprobed, "presence_tests": pt, "value_classes": vc, "changed": changed,
+            "node_unprobed": unprobed, "values_lost": vl, "presence_tests": pt, "value_classes": vc, "changed": changed,
             "spans": {"abc_property_graph": h1}}
